@@ -8,6 +8,7 @@ cd /verif
 for d in seeded/$GLOB/; do
   id=$(basename $d)
   [ -f $d/patch.diff ] || continue
+  if [ -n "${SKIP_UNTIL:-}" ] && [ "$id" \< "$SKIP_UNTIL" ]; then continue; fi
   prop=$(python3 -c "import json;m=json.load(open('$d/meta.json'));p=m.get('breaks_property') or m.get('property');print(p if isinstance(p,str) else p[0])")
   W=/var/tmp/seedwt-$id
   git -C /repo worktree remove --force $W 2>/dev/null
@@ -15,7 +16,7 @@ for d in seeded/$GLOB/; do
   if ! git -C $W apply $PWD/$d/patch.diff 2>/dev/null; then
     echo "SEED $id ($prop): patch does not apply to HEAD"
   else
-    OUT=$(VERIF_REPO=$W VERIF_BUDGET=$B VERIF_WORKERS=${VERIF_WORKERS:-8} ./check $prop quick 2>&1); RC=$?
+    OUT=$(VERIF_FIRST=1 VERIF_REPO=$W VERIF_BUDGET=$B VERIF_WORKERS=${VERIF_WORKERS:-8} ./check $prop quick 2>&1); RC=$?
     KEYS=$(echo "$OUT" | grep "^  violation key=" | sed 's/^  violation key=\([^:]*\):.*/\1/' | sort -u | head -4 | tr '\n' ' ')
     echo "SEED $id ($prop): exit=$RC detected=$([ $RC = 1 ] && echo yes || echo NO) $KEYS"
   fi
